@@ -1355,7 +1355,11 @@ pub fn gen_graph(rng: &mut Rng, n_v: usize, style: LenStyle) -> (Vec<(f32, f32)>
                         // (not by the code under test), with a margin far above f64 rounding and far
                         // below anything a single-precision formula could hide behind — an estimate
                         // that overshoots the distance at all becomes an inadmissible one
-                        gc_f64(coords[a], coords[b]) * (1.0 + 1.0e-9) + 1.0e-6
+                        // (half of these with an excess of up to half a percent: a detour over nearly
+                        // collinear vertices is then a little cheaper than the direct edge, and an estimate
+                        // that overshoots by a fraction of a percent picks the direct edge)
+                        let excess = if rng.chance(1, 2) { 0.005 * rng.unit() } else { 0.0 };
+                        gc_f64(coords[a], coords[b]) * (1.0 + 1.0e-9 + excess) + 1.0e-6
                     } else {
                         let gc = gc_between(coords[a], coords[b]);
                         // strictly above the great-circle distance (avoid ulp-level ties with it)
